@@ -442,7 +442,7 @@ def deep_model(ctx, pid, parallel=8, timeout=3000):
                          _cfg(ctx, "MC_deep_hf_%d.cfg" % lo, "deep", ["hf"], lo, lo + 255)))
         jobs.append(("header byte patterns (deep boundary sets), packets", _cfg(ctx, "MC_deep_hb.cfg", "deep", ["hb", "rt"], 0, 1023)))
     else:
-        for fam in ("short6", "short7", "cor6", "cor7", "heur6", "comp6", "comp7", "max6", "max7"):
+        for fam in ("short6", "short7", "cor6", "cor7", "heur6", "comp6", "comp7", "max6", "max7", "close"):
             jobs.append(("reader totality / re-read law on the model: %s (deep)" % fam,
                          _cfg(ctx, "MC_deep_%s.cfg" % fam, "deep", [fam], 0, 1023)))
     import concurrent.futures as cf
